@@ -92,13 +92,16 @@ Print Assumptions C14_ng_exec_is_session.
 
 (* ------------------------------------------------------------------ proved at file level *)
 (* C14_ng_roundtrip for the sub-language {NewNgWriterInterface, AddInterface, WritePacketWithOptions,
-   WriteDecryptionSecretsBlock}
+   WriteDecryptionSecretsBlock, WriteInterfaceStats} — every call the writer has
    (any section description, any number of interfaces of any link types and snap lengths, any
    NgPacketOptions), all link types wanted, copying or zero-copy call.  [ops_ok] (Proofs/NgFile.v) is
    exactly: strings and option values shorter than 65536 bytes, if_tsoffset 0, and for each packet
    what WritePacketWithOptions enforces (interface exists, caplen = |data| <= len) plus timestamp in
    [0, 2^63) ns, caplen <= snap length of its interface (when not 0), sizes below 2^32.
-   Missing from the full statement: WriteInterfaceStats blocks in the script; WantMixedLinkType = false (packets of other link types skipped). *)
+   An interface statistics block is parsed and recorded in the statistics of its interface (the
+   reader state is the script's interfaces up to their statistics, Proofs/NgFile.v sinv); a
+   decryption secrets block is skipped; the packets are unaffected.
+   Missing from the full statement: WantMixedLinkType = false (packets of other link types skipped). *)
 Theorem C14_ng_roundtrip_file_partial : forall ro sec i0 ops,
   ro_mixed ro = true -> sec_ok sec -> ops_ok [] (WAddIf i0 :: ops) -> zlen ops < 4294967290 ->
   let r := write_cut_read ro sec i0 ops (length (write_file sec i0 ops)) in
@@ -120,7 +123,7 @@ Print Assumptions C14_ng_writer_accepts.
    C14_ng_roundtrip_file_partial.  The reader runs with any fuel at least that of the whole file (the model's
    fuel is a proof device; C15_ng_terminates shows the fuel of the cut input is never exhausted
    either, but the equality of the two runs is not proved).  Cuts inside the section header block: C14_ng_prefix_header_partial.  The run with the cut
-   input's own fuel: C14_ng_prefix_file_own_fuel_partial.  Missing: ISB blocks, WantMixedLinkType = false. *)
+   input's own fuel: C14_ng_prefix_file_own_fuel_partial.  Missing: WantMixedLinkType = false. *)
 Theorem C14_ng_prefix_file_partial : forall ro sec i0 ops pre nxt post k,
   ro_mixed ro = true -> sec_ok sec -> ops_ok [] (WAddIf i0 :: ops) -> zlen ops < 4294967290 ->
   WAddIf i0 :: ops = pre ++ nxt :: post -> (k < length (enc_op nxt))%nat ->
@@ -263,11 +266,15 @@ Qed.
 (* non-vacuity of ops_ok *)
 Example C14_ng_ops_ok_nonvacuous :
   ops_ok [] [WAddIf (mkWif [101] [] [] [116] [] 1 9 0 96);
+             WStats 0 (mkWstats (Some 5000000000007) None (Some 7) 3 NoValue64);
+             WDSB 1414288203 [1;2;3];
              WPacket 0 5000000000007 3 5 [1;2;3] (mkPopts [[97]; []] (Some (1, 8, 64, 131072)) [(3, [1])] None (Some 9) None [])]
   /\ sec_ok sample_sec.
 Proof.
   split; [|unfold sec_ok, str_ok, sample_sec; cbn; unfold zlen; cbn; lia].
-  cbn [ops_ok app map]. split; [unfold wif_ok, str_ok; cbn; unfold zlen; cbn; lia|]. split; [|exact I].
+  cbn [ops_ok app map]. split; [unfold wif_ok, str_ok; cbn; unfold zlen; cbn; lia|].
+  split; [unfold zlen; cbn; lia|]. split; [lia|].
+  split; [reflexivity|]. split; [lia|]. split; [unfold zlen; cbn; lia|]. split; [|exact I].
   unfold wf_packet. split; [lia|]. split; [reflexivity|]. split; [lia|]. split; [lia|].
   split.
   { unfold wf_popts; cbn [po_comments po_flags po_hashes po_drop po_pid po_queue po_verdicts].
